@@ -140,7 +140,64 @@ def all_loads(ctx, ref, rep, phase, quick_subset=False):
                                 f'C06/wrong-entry/{cfg}/{phase}',
                                 f'load(run={run},{tgt},{alg},{cfg}).{k}: got {who!r}, '
                                 f'expected {want["who"]}', dict(rep, load=[run, tgt, alg, cfg]))
+                        # what a load hands out is the caller's: changing it in
+                        # place must not change what any later load returns
+                        if got is not sent and hasattr(got, 'content'):
+                            got.content = {'who': 'MODIFIED-IN-PLACE-BY-AN-EARLIER-CALLER'}
     return outcomes
+
+
+def referenced_loads(ctx, ref, rep, phase):
+    '''Dataset.load(ALG_REF): how Task.do loads the inputs an algorithm declares.
+    The loading algorithm lives in another task ('u') that has an algorithm of
+    the same name; what is loaded is the referenced task's ('t') entry'''
+    import dawgie
+    import dawgie.context
+    import dawgie.db
+    from dawgie.db.shelve.state import DBI
+    from . import mini
+
+    for run in (1, 2, 3, 6):
+        for tgt in ('A', 'B'):
+            for alg in ('a', 'b'):
+                sx, sy = mini.Val('SENTINEL'), mini.Val('SENTINEL')
+                svo = mini.SV('s', values={'x': sx, 'y': sy})
+                target_alg = mini.Alg(alg, svs=[svo])
+
+                def task(prefix, ps_hint=0, runid=-1, target='__none__', _a=target_alg):
+                    return mini.Bot(prefix, runid, target, [_a])
+
+                task.__module__ = dawgie.context.ae_base_package + '.t'
+                task.__name__ = 'task'
+                loader_alg = mini.Alg(alg, svs=[mini.SV('s', values={'x': mini.Val('LOADER'), 'y': mini.Val('LOADER')})])
+                loader_bot = mini.Bot('u', run, tgt, [loader_alg])
+                DBI()._DBI__reopened = True
+                ctx.count('loads')
+                try:
+                    dawgie.db.connect(loader_alg, loader_bot, tgt).load(dawgie.ALG_REF(task, target_alg))
+                except Exception as e:  # noqa
+                    ctx.violation(f'C06/referenced-load-raises/{type(e).__name__}/{phase}',
+                                  f'load(ALG_REF t.{alg}) from u.{alg} run={run} {tgt} raised {e!r}',
+                                  dict(rep, load=[run, tgt, alg, 'referenced']))
+                    continue
+                finally:
+                    DBI()._DBI__reopened = False
+                for k, sent in (('x', sx), ('y', sy)):
+                    want = ref_load(ref, run, tgt, alg, 'base', k)
+                    got = svo[k]
+                    if want is None:
+                        if got is not sent:
+                            ctx.violation(f'C06/leak/referenced/{phase}',
+                                          f'load(ALG_REF t.{alg}).{k} run={run} {tgt}: nothing matches but got '
+                                          f'{getattr(got, "content", got)!r}', dict(rep, load=[run, tgt, alg, 'referenced']))
+                    elif got is sent:
+                        ctx.violation(f'C06/not-loaded/referenced/{phase}',
+                                      f'load(ALG_REF t.{alg}).{k} from task u run={run} {tgt}: left untouched, expected '
+                                      f'{want["who"]}', dict(rep, load=[run, tgt, alg, 'referenced']))
+                    elif getattr(got, 'content', None) != want:
+                        ctx.violation(f'C06/wrong-entry/referenced/{phase}',
+                                      f'load(ALG_REF t.{alg}).{k} run={run} {tgt}: got {getattr(got, "content", got)!r}, '
+                                      f'expected {want["who"]}', dict(rep, load=[run, tgt, alg, 'referenced']))
 
 
 def work(args):
@@ -164,6 +221,7 @@ def work(args):
                 ref_put(ref, e)
             ctx.count('stores')
             nontrivial += all_loads(ctx, ref, rep, 'fresh', quick and mask % 8 != 0)
+            referenced_loads(ctx, ref, rep, 'fresh')
             # single mutations, each followed by every load again
             if quick and mask % 4 != 3:
                 continue
